@@ -70,10 +70,23 @@ fn exec_one(vals: &[i32], which: Which, spec: &RngSpec, obs: &mut Obs) -> Vec<Vi
     let n = pop.len();
     let mut rng = spec.build();
     CMP_LOG.with(|l| l.borrow_mut().clear());
+    // in a third of the runs the tournament VALUE selects once from another population (reversed values, one
+    // member more) before the checked call: a selector must not carry anything over between calls
+    let warm = spec.seed % 3 == 0;
+    let warm_vals: Vec<i32> = vals.iter().rev().copied().chain([0]).collect();
+    let warm_pop = pop_of(&warm_vals);
     let r = catch(|| match which {
         Which::Best => Best.select(&pop, &mut rng).ok().map(|x| x.id),
         Which::Worst => Worst.select(&pop, &mut rng).ok().map(|x| x.id),
-        Which::Tournament(k) => tournament(k).select(&pop, &mut rng).ok().map(|x| x.id),
+        Which::Tournament(k) => {
+            let t = tournament(k);
+            if warm {
+                let mut wr = simcore::SimRng::seeded(spec.seed ^ 0x51ab);
+                let _ = t.select(&warm_pop, &mut wr);
+                CMP_LOG.with(|l| l.borrow_mut().clear());
+            }
+            t.select(&pop, &mut rng).ok().map(|x| x.id)
+        }
     });
     obs.count("draws", rng.draws());
     obs.count("fault.adversarial-stream-words", rng.boundary_fired());
@@ -247,7 +260,8 @@ fn exec_dist(n: usize, k: usize, trials: u64, seed: u64, cells_total: u64, obs: 
     let pop = pop_of(&vals);
     let mut rng = FastRng::new(seed);
     let t = tournament(k);
-    let mut subsets = vec![0u64; 1 << n];
+    let track = n <= SUBSET_TRACKING_MAX_N;
+    let mut subsets = vec![0u64; if track { 1 << n } else { 1 }];
     let mut winners = vec![0u64; n];
     for trial_no in 0..trials {
         CMP_LOG.with(|l| l.borrow_mut().clear());
@@ -258,12 +272,14 @@ fn exec_dist(n: usize, k: usize, trials: u64, seed: u64, cells_total: u64, obs: 
                 format!("Tournament({k}) on a population of {n} panicked or reported an error in trial {trial_no}"),
             )];
         };
-        let mut mask = 1usize << w;
+        let mut mask = if track { 1usize << w } else { 0 };
+        if track {
         CMP_LOG.with(|l| {
             for id in l.borrow().iter() {
                 mask |= 1 << id;
             }
         });
+        }
         subsets[mask] += 1;
         winners[w as usize] += 1;
     }
@@ -271,7 +287,7 @@ fn exec_dist(n: usize, k: usize, trials: u64, seed: u64, cells_total: u64, obs: 
     obs.nontrivial(mix(mix(9, n as u64), k as u64));
     let mut v = Vec::new();
     let total_subsets = stats::binom(n as u64, k as u64);
-    for (mask, count) in subsets.iter().enumerate() {
+    for (mask, count) in subsets.iter().enumerate().filter(|_| track) {
         let size = mask.count_ones() as usize;
         let p = if size == k { 1.0 / total_subsets } else { 0.0 };
         if size != k && *count == 0 {
@@ -322,6 +338,12 @@ fn exec_dist(n: usize, k: usize, trials: u64, seed: u64, cells_total: u64, obs: 
 
 struct C07;
 
+/// Larger populations: thresholds such as "k*k <= n" or "16*k <= n" select other code paths; for n <= 16 the
+/// entrant sets are still tracked, beyond that only the winner-rank law is decided.
+const BIG_CELLS: [(usize, usize); 12] =
+    [(9, 3), (12, 2), (16, 3), (16, 4), (25, 2), (25, 5), (40, 3), (100, 2), (100, 10), (300, 3), (1000, 2), (1000, 31)];
+const SUBSET_TRACKING_MAX_N: usize = 16;
+
 fn dist_cells(max_n: usize) -> Vec<(usize, usize)> {
     let mut v = Vec::new();
     for n in 1..=max_n {
@@ -329,12 +351,13 @@ fn dist_cells(max_n: usize) -> Vec<(usize, usize)> {
             v.push((n, k));
         }
     }
+    v.extend(BIG_CELLS);
     v
 }
 
 fn cells_total(max_n: usize) -> u64 {
     // subset cells (2^n per (n,k), only non-empty ones are tested) + rank cells
-    dist_cells(max_n).iter().map(|(n, _)| (1u64 << n) + *n as u64).sum()
+    dist_cells(max_n).iter().map(|(n, _)| if *n <= SUBSET_TRACKING_MAX_N { (1u64 << n) + *n as u64 } else { *n as u64 }).sum()
 }
 
 impl Check for C07 {
@@ -393,15 +416,23 @@ impl Check for C07 {
                 rng: RngSpec::swarm(g),
             };
         }
-        let n = if g.chance(1, 4) { g.urange(9, 14) } else { g.urange(1, 8) };
-        let spread = g.range(1, 4) as i32;
+        let n = if g.chance(1, 40) {
+            g.log_uniform(15, 3000)
+        } else if g.chance(1, 4) {
+            g.urange(9, 14)
+        } else {
+            g.urange(1, 8)
+        };
+        let spread = if n > 14 && g.coin() { g.range(1, n as u64) as i32 } else { g.range(1, 4) as i32 };
         let vals: Vec<i32> = (0..n).map(|_| g.range(0, spread as u64) as i32).collect();
         let which = match g.below(4) {
             0 => Which::Best,
             1 => Which::Worst,
-            _ => Which::Tournament(match g.below(4) {
+            _ => Which::Tournament(match g.below(5) {
                 0 => 1,
                 1 => n,
+                // small tournaments in large populations and large ones in small populations alike
+                2 => g.log_uniform(1, n),
                 _ => g.urange(1, n),
             }),
         };
